@@ -12,8 +12,10 @@
    w_sched (true = the request succeeds); an exhausted schedule answers true, so [] is the
    normal, fault-free allocator.  Every request is logged in w_trace (kind, size, answer).
 
-   a_que_swap and a_que_swap_ are modelled WITH the repairs of proposed_fixes/C05-2 and C05-3;
-   the bodies as found in the pinned tree are kept as q_swap_orig / q_swap_elem_orig.
+   The model follows /repo as it is now: a_que_swap and a_que_swap_ with the repairs C05-2 / C05-3
+   (bodies as found kept as q_swap_orig / q_swap_elem_orig), a_que_drop with the up-front
+   reservation and a_que_setz releasing the recycled nodes (fix commits 2e456ba, 8678f0c; bodies as
+   found kept as q_drop_orig / q_setz_orig).
 
    num_, mem_ and the counters are unbounded N here (no mod 2^64): every element occupies at
    least 17 bytes of address space, so the C counters cannot wrap.  Indices passed by the caller
@@ -319,7 +321,8 @@ Definition q_swap (w : qworld) (s1 s2 : bool) : outcome qworld :=
 Definition q_swap_orig (w : qworld) (s1 s2 : bool) : outcome qworld :=
   if Bool.eqb s1 s2 then Ok w else q_struct_swap w.
 
-(* a_que_drop (dtor = NULL): returns the error code *)
+(* the loop of a_que_drop:  for (node = head->next; node != head; node = head->next)
+     { rc = a_que_die_(ctx, node); if (rc == 0) { del_node; dtor } else return rc; }  *)
 Fixpoint q_drop_loop (w : qworld) (s : bool) (fuel : nat) : outcome (qworld * Z) :=
   match fuel with
   | O => NoFuel
@@ -331,11 +334,30 @@ Fixpoint q_drop_loop (w : qworld) (s : bool) (fuel : nat) : outcome (qworld * Z)
         doo x <- q_take_rc w s node ;
         if Z.eqb (snd x) 0 then q_drop_loop (fst x) s f else Ok x
   end.
-Definition q_drop (w : qworld) (s : bool) : outcome (qworld * Z) := q_drop_loop w s (fuel_of w).
 
-(* the realloc loop of a_que_setz over ptr_[0..cur_): one request per pooled node; stops at the
-   first refusal.  Addresses (identities) of pooled nodes are kept: the C driver keeps the name of a
-   block across realloc. *)
+(* the reservation at the head of a_que_drop (fix commit 2e456ba):
+     need = cur_ + num_;
+     if (need > mem_) { mem = a_size_up(8, need); ptr = a_alloc(ptr_, 8 * mem);
+                        if (!ptr) return A_OMEMORY; ptr_ = ptr; mem_ = mem; }            *)
+Definition q_reserve (w : qworld) (s : bool) : qworld * bool :=
+  let q := getq w s in
+  let need := N.of_nat (length (q_pool q)) + q_num q in
+  if N.ltb (q_mem q) need then
+    let mem := size_up8 need in
+    let '(w1, ok) := ask w (RPool (8 * mem)) in
+    if ok then (setq w1 s (mkQ (q_pool q) (q_siz q) (q_num q) mem), true) else (w1, false)
+  else (w, true).
+
+(* a_que_drop (dtor = NULL) as it is in /repo now: reserve, then the loop; returns the error code *)
+Definition q_drop (w : qworld) (s : bool) : outcome (qworld * Z) :=
+  let '(w1, ok) := q_reserve w s in
+  if ok then q_drop_loop w1 s (fuel_of w1) else Ok (w1, 4%Z).
+
+(* a_que_drop as found in the pinned tree: the loop only (the pool array grew one step at a time) *)
+Definition q_drop_orig (w : qworld) (s : bool) : outcome (qworld * Z) := q_drop_loop w s (fuel_of w).
+
+(* the realloc loop of a_que_setz as found in the pinned tree, over ptr_[0..cur_): one request per
+   pooled node; stops at the first refusal *)
 Fixpoint q_resize_all (w : qworld) (nodes : list id) (size : N) : qworld * bool :=
   match nodes with
   | [] => (w, true)
@@ -343,9 +365,28 @@ Fixpoint q_resize_all (w : qworld) (nodes : list id) (size : N) : qworld * bool 
               if ok then q_resize_all w1 r size else (w1, false)
   end.
 
-(* a_que_setz (dtor = NULL) *)
+(* a_que_dtor(ctx, NULL) followed by a_que_ctor(ctx, size): every node of the pool and of the ring
+   is given back to the allocator (removed from the heap), then the object is constructed again *)
+Definition free_nodes (w : qworld) (ns : list id) : qworld :=
+  mkW (fold_left ddel ns (w_h w)) (fold_left vdel ns (w_val w)) (w_fresh w) (w_qa w) (w_qb w)
+      (w_sched w) (w_trace w).
+(* a_que_setz (dtor = NULL) as it is in /repo now (fix commit 8678f0c): drop; when the element size
+   grows the recycled nodes are released  (while (cur_) a_alloc(ptr_[--cur_], 0);  this cannot fail,
+   the next push allocates a node of the new size) *)
 Definition q_setz (w : qworld) (s : bool) (siz : N) : outcome (qworld * Z) :=
   doo r <- q_drop w s ;
+  let '(w1, rc) := r in
+  if Z.eqb rc 0 then
+    let siz := if N.eqb siz 0 then 1 else siz in
+    let q := getq w1 s in
+    if N.ltb (q_siz q) siz then
+      Ok (setq (free_nodes w1 (q_pool q)) s (mkQ [] siz (q_num q) (q_mem q)), 0%Z)
+    else Ok (setq w1 s (mkQ (q_pool q) siz (q_num q) (q_mem q)), 0%Z)
+  else Ok (w1, rc).
+
+(* a_que_setz as found in the pinned tree: the recycled nodes were resized one by one *)
+Definition q_setz_orig (w : qworld) (s : bool) (siz : N) : outcome (qworld * Z) :=
+  doo r <- q_drop_orig w s ;
   let '(w1, rc) := r in
   if Z.eqb rc 0 then
     let siz := if N.eqb siz 0 then 1 else siz in
@@ -359,11 +400,6 @@ Definition q_setz (w : qworld) (s : bool) (siz : N) : outcome (qworld * Z) :=
     else Ok (setq w1 s (mkQ (q_pool q) siz (q_num q) (q_mem q)), 0%Z)
   else Ok (w1, rc).
 
-(* a_que_dtor(ctx, NULL) followed by a_que_ctor(ctx, size): every node of the pool and of the ring
-   is given back to the allocator (removed from the heap), then the object is constructed again *)
-Definition free_nodes (w : qworld) (ns : list id) : qworld :=
-  mkW (fold_left ddel ns (w_h w)) (fold_left vdel ns (w_val w)) (w_fresh w) (w_qa w) (w_qb w)
-      (w_sched w) (w_trace w).
 Definition q_reset (w : qworld) (s : bool) (size : N) : outcome qworld :=
   match ring_of (w_h w) (qaddr s) (fuel_of w) with
   | None => Fault
